@@ -141,3 +141,44 @@ func TestC04_SingleNibble(t *testing.T) {
 		t.Fatalf("enumeration incomplete: %d", cnt)
 	}
 }
+
+// TestC04_PowersOfTwo enumerates s = 2^k + d for every k in 0..256 and d in
+// {-1, 0, 1} (reduced mod n) through every public single-scalar entry point:
+// the exact limb / half-width boundaries (2^64, 2^128, 2^192, ...) are where
+// short-scalar fast paths and width checks go wrong, and random or
+// boundary-"biased" draws hit an exact 2^k only occasionally.
+func TestC04_PowersOfTwo(t *testing.T) {
+	g := ref.BaseMul(big.NewInt(0xfeed))
+	lg := lib.Pt(g)
+	zero := secp256k1.NewScalar()
+	cnt := 0
+	for k := 0; k <= 256; k++ {
+		for d := -1; d <= 1; d++ {
+			s := new(big.Int).Lsh(big.NewInt(1), uint(k))
+			s.Add(s, big.NewInt(int64(d)))
+			s = ref.Mod(s, ref.N)
+			want := g.Mul(s).Uncompressed()
+			ls := lib.Sc(s)
+			got := map[string]*secp256k1.Point{
+				"ScalarMult":                       secp256k1.NewIdentityPoint().ScalarMult(ls, lg),
+				"DoubleScalarMultBasepointVartime": secp256k1.NewIdentityPoint().DoubleScalarMultBasepointVartime(zero, ls, lg),
+				"MultiScalarMult":                  secp256k1.NewIdentityPoint().MultiScalarMult([]*secp256k1.Scalar{ls}, []*secp256k1.Point{lg}),
+				"MultiScalarMultVartime":           secp256k1.NewIdentityPoint().MultiScalarMultVartime([]*secp256k1.Scalar{ls}, []*secp256k1.Point{lg}),
+				"MultiScalarMultVartime(2 terms)":  secp256k1.NewIdentityPoint().MultiScalarMultVartime([]*secp256k1.Scalar{ls, zero}, []*secp256k1.Point{lg, lg}),
+			}
+			for name, p := range got {
+				if !bytes.Equal(p.UncompressedBytes(), want) {
+					t.Fatalf("%s(s = 2^%d%+d = %x, P): got %x want %x", name, k, d, s, p.UncompressedBytes(), want)
+				}
+			}
+			stat.Case("powers-of-two", []string{fmt.Sprintf("d=%+d", d)}, true, s.Bytes(), func() any {
+				return map[string]any{"s": s.Text(16), "k": k, "d": d}
+			})
+			cnt++
+		}
+	}
+	stat.Exhaustive("powers-of-two")
+	if cnt != 257*3 {
+		t.Fatalf("enumeration incomplete: %d", cnt)
+	}
+}
